@@ -599,6 +599,10 @@ func (c *specCtx) call(t *ast.CallExpr, n *SpecNode) Val {
 		k = c.coerce(k, mt.Key())
 		_, has := c.x.mapLoad(c.st, m, k)
 		return boolVal(has)
+	case "cacheTTL", "cacheLastSetTTL":
+		cv := arg(0)
+		reg := map[string]string{"cacheTTL": "gocache.defaultTTL", "cacheLastSetTTL": "gocache.lastSetTTL"}[fname]
+		return Val{T: types.Typ[types.Int64], L: []string{c.x.heapRead(c.st, reg, SBV64, cv.L[0], "")}}
 	case "cacheHas", "cacheVal":
 		// contents of a go-cache object (model): cacheHas(c.cache, k), cacheVal(c.cache, k)
 		cv, k := arg(0), arg(1)
